@@ -18,6 +18,10 @@ defined by the library is `user "<ClassName>"` (no subclass relation is modelled
 inductive PyErr where
   | ValueError | IndexError | KeyError | TypeError | ZeroDivisionError | AssertionError | NotImplementedError
   | user (cls : String)
+  | StopIteration
+  /-- NOT a Python exception: the explicit fuel of a translated `while` loop / recursion ran out.  The equivalence
+  theorems are stated for fuel above a bound, where this value does not occur. -/
+  | fuel
 deriving Repr, DecidableEq
 
 abbrev Str := List Char
@@ -147,5 +151,123 @@ def pyDictGetItem {κ ν} [BEq κ] (d : Dict κ ν) (k : κ) : Except PyErr ν :
 
 /-- `k in d` -/
 def pyDictContains {κ ν} [BEq κ] (d : Dict κ ν) (k : κ) : Bool := (d.lookup k).isSome
+
+/-- `k in d` for a list of pairs used as dict -/
+theorem pyDictContains_def {κ ν} [BEq κ] (d : Dict κ ν) (k : κ) : pyDictContains d k = (d.lookup k).isSome := rfl
+
+/-- `d[k] = v`: an existing key keeps its position, a new key goes to the end. -/
+def pyDictSet {κ ν} [BEq κ] : Dict κ ν → κ → ν → Dict κ ν
+  | [], k, v => [(k, v)]
+  | (k', v') :: r, k, v => if k' == k then (k', v) :: r else (k', v') :: pyDictSet r k v
+
+/-- `dict(pairs)` / a dict display / a dict comprehension: later pairs overwrite, first position kept. -/
+def pyDictOfList {κ ν} [BEq κ] (ps : List (κ × ν)) : Dict κ ν := ps.foldl (fun d p => pyDictSet d p.1 p.2) []
+
+/-- `d.setdefault(k, v)` as a statement (the value is discarded). -/
+def pyDictSetDefault {κ ν} [BEq κ] (d : Dict κ ν) (k : κ) (v : ν) : Dict κ ν :=
+  if pyDictContains d k then d else d ++ [(k, v)]
+
+/-! ### set (duplicate-free list in insertion order).  CPython's iteration order of a set is NOT this order: the
+translator only lets a set be iterated where the result cannot depend on the order (py2lean docstring). -/
+
+/-- `s.add(x)` -/
+def pySetAdd {α} [BEq α] (s : List α) (x : α) : List α := if s.contains x then s else s ++ [x]
+
+/-- `s.update(xs)` / `s | set(xs)` / `s.union(xs)` -/
+def pySetUpdate {α} [BEq α] (s : List α) (xs : List α) : List α := xs.foldl pySetAdd s
+
+/-- `set(xs)` / `{a, b, …}` -/
+def pySetOfList {α} [BEq α] (xs : List α) : List α := pySetUpdate [] xs
+
+/-- `s & t` / `s.intersection(xs)` -/
+def pySetInter {α} [BEq α] (s : List α) (xs : List α) : List α := s.filter (fun x => xs.contains x)
+
+/-- `s - t` / `s.difference(xs)` -/
+def pySetDiff {α} [BEq α] (s : List α) (xs : List α) : List α := s.filter (fun x => !xs.contains x)
+
+/-- `s <= t` / `s.issubset(xs)` -/
+def pySetSubset {α} [BEq α] (s : List α) (xs : List α) : Bool := s.all (fun x => xs.contains x)
+
+/-- `s == t` on sets (both duplicate-free). -/
+def pySetEq {α} [BEq α] (s t : List α) : Bool := pySetSubset s t && pySetSubset t s
+
+/-- `s.isdisjoint(xs)` -/
+def pySetDisjoint {α} [BEq α] (s : List α) (xs : List α) : Bool := s.all (fun x => !xs.contains x)
+
+/-! ### whitespace (`s.split()`, `s.strip()` without argument) -/
+
+/-- the code points `c` with `chr(c).isspace()`: what `str.split()` / `str.strip()` treat as blank (the selftest
+compares this list with CPython for EVERY code point). -/
+def pyWhitespaceCodes : List Nat :=
+  [9, 10, 11, 12, 13, 28, 29, 30, 31, 32, 133, 160, 5760, 8192, 8193, 8194, 8195, 8196, 8197, 8198,
+   8199, 8200, 8201, 8202, 8232, 8233, 8239, 8287, 12288]
+
+def pyIsSpace (c : Char) : Bool := pyWhitespaceCodes.contains c.toNat
+
+/-- worker of `pySplitWs`: `cur` is the current word, reversed. -/
+def pySplitWsGo : Str → Str → List Str
+  | cur, [] => if cur.isEmpty then [] else [cur.reverse]
+  | cur, c :: cs =>
+    if pyIsSpace c then (if cur.isEmpty then pySplitWsGo [] cs else cur.reverse :: pySplitWsGo [] cs)
+    else pySplitWsGo (c :: cur) cs
+
+/-- `s.split()` (runs of whitespace separate; no empty strings). -/
+def pySplitWs (s : Str) : List Str := pySplitWsGo [] s
+
+/-- `s.strip()` -/
+def pyStripWs (s : Str) : Str := ((s.dropWhile pyIsSpace).reverse.dropWhile pyIsSpace).reverse
+
+/-- `s.lstrip()` -/
+def pyLstripWs (s : Str) : Str := s.dropWhile pyIsSpace
+
+/-- `s.rstrip()` -/
+def pyRstripWs (s : Str) : Str := (s.reverse.dropWhile pyIsSpace).reverse
+
+/-! ### sorting (stable insertion sort), any/all, enumerate from a start -/
+
+/-- `a <= b` on `str`: lexicographic by code point. -/
+def pyStrLe : Str → Str → Bool
+  | [], _ => true
+  | _ :: _, [] => false
+  | a :: as, b :: bs => if a.toNat < b.toNat then true else if b.toNat < a.toNat then false else pyStrLe as bs
+
+/-- the order of the keys `sorted` can use here: `int` and `str`. -/
+class PyOrd (α : Type) where
+  le : α → α → Bool
+
+instance : PyOrd Int := ⟨fun a b => decide (a ≤ b)⟩
+instance : PyOrd Str := ⟨pyStrLe⟩
+
+/-- insert `x` AFTER every element whose key is `≤` its key (stability). -/
+def pyInsertBy {α κ} [PyOrd κ] (key : α → κ) (x : α) : List α → List α
+  | [] => [x]
+  | y :: ys => if PyOrd.le (key y) (key x) then y :: pyInsertBy key x ys else x :: y :: ys
+
+/-- `sorted(xs, key=key)` (stable). -/
+def pySortedBy {α κ} [PyOrd κ] (key : α → κ) (xs : List α) : List α :=
+  xs.foldl (fun acc x => pyInsertBy key x acc) []
+
+/-- `sorted(xs)` on ints / strs. -/
+def pySorted {α} [PyOrd α] (xs : List α) : List α := pySortedBy (fun x => x) xs
+
+/-- `enumerate(xs, start)` -/
+def pyEnumerateFrom {α} (xs : List α) (start : Int) : List (Int × α) :=
+  List.zipWith (fun (i : Nat) x => (start + (i : Int), x)) (List.range xs.length) xs
+
+/-- `next(iter(xs))` on a list/tuple/dict-keys (NOT on a set: the first element of a set is arbitrary). -/
+def pyNext {α} : List α → Except PyErr α
+  | [] => .error .StopIteration
+  | x :: _ => .ok x
+
+/-- `xs.pop(0)` / `deque.popleft()`: the first element and the rest. -/
+def pyPopLeft {α} : List α → Except PyErr (α × List α)
+  | [] => .error .IndexError
+  | x :: r => .ok (x, r)
+
+/-- `xs.pop()`: the last element and the rest. -/
+def pyPop {α} (xs : List α) : Except PyErr (α × List α) :=
+  match xs.reverse with
+  | [] => .error .IndexError
+  | x :: r => .ok (x, r.reverse)
 
 end Verif.PyRt
